@@ -203,8 +203,14 @@ Inductive rpc :=
 | RClose (p : cpc)     (* inside close(false) *)
 | RExit                (* deferred exit: close(decrypted) if established; cancel() *)
 | RDone
-| RHand (failed : bool).
-    (* readAndBuffer handed a handshake/ACK datagram to the state machine ("c.handshakeRecv <- s") and
+| RHand (failed : bool)
+| RReplyF.
+    (* RReplyF: holds a received close_notify and the transport refuses the write of the close_notify
+       reply (ECONNREFUSED on a UDP socket whose peer is gone, EPERM, ENETUNREACH, a closed pipe):
+       sendCloseNotify returns the write error at once.  processIncomingPacket keeps the error of the
+       packet that provoked the alert ("if alertErr != nil && err == nil { err = alertErr }"), so the
+       read loop still classifies the received close_notify: readLoopCloseAndStop -> close(false). *)
+    (* RHand: readAndBuffer handed a handshake/ACK datagram to the state machine ("c.handshakeRecv <- s") and
        is parked on "<-s.Done".  [failed]: the state machine fails while it handles it (the ACK of a
        peer's post-handshake KeyUpdate/NewSessionTicket cannot be written, the message is refused,
        Close cancels ctxHs inside that write).  The lease is released on every path - fsm13.finish:
@@ -233,6 +239,19 @@ Definition reader_step (r : rpc) (c : conn) : rpc * conn :=
   | RExit => (RDone, reader_exit c)
   | RDone => (RDone, c)
   | RHand f => (RRead, if f then put_first_err ROther c else c)
+  | RReplyF =>
+      (* the write fails at once (no waiting, unlike RReply under a blocking socket): the Once is
+         consumed, no record ([wr_blk] was set by the event), the classification stays "peer closed" *)
+      (RClassify RCn, send_cn_reply c)
+  end.
+
+(* VARIANT (refuted, seeded change C16g): the write error of the reply REPLACES the error of the packet
+   that provoked the alert ("if alertErr != nil { err = alertErr }"): the read loop sees a bare transport
+   error, which on an established connection is readLoopDeliverAndContinue - handed to Read, loop goes on *)
+Definition reader_step_sw (r : rpc) (c : conn) : rpc * conn :=
+  match r with
+  | RReplyF => (RClassify ROther, send_cn_reply c)
+  | _ => reader_step r c
   end.
 
 (* ------------------------------------------------------------------ HandshakeContext caller *)
@@ -307,8 +326,11 @@ Inductive env :=
 | ERdDeadline | EWrDeadline  (* SetReadDeadline/SetWriteDeadline in the past *)
 | EHsCtx          (* the context passed to HandshakeContext is done *)
 | EWrBlock        (* from now on the socket does not take writes *)
-| ERecvHs (failed : bool).
+| ERecvHs (failed : bool)
     (* a handshake / ACK datagram is read and handed to the state machine, which handles it or fails *)
+| ERecvCNF.
+    (* a close_notify alert is read by the read loop while the reply cannot be written: the transport
+       refuses writes (from now on the socket does not take them: [wr_blk], here as an immediate error) *)
 
 Inductive op :=
 | SpawnClose             (* one more goroutine calls Close() *)
@@ -364,6 +386,11 @@ Definition env_step (e : env) (g : cfg) : cfg :=
       | RRead => if sock_closed c then g else mkCfg c (hs g) (RHand f) (us g)
       | _ => g
       end
+  | ERecvCNF =>
+      match rd g with
+      | RRead => if sock_closed c then g else mkCfg (set_wr_blk c) (hs g) RReplyF (us g)
+      | _ => g
+      end
   end.
 
 Definition exec (o : op) (g : cfg) : cfg :=
@@ -383,6 +410,36 @@ Fixpoint run (ops : list op) (g : cfg) : cfg :=
   match ops with
   | [] => g
   | o :: ops' => run ops' (exec o g)
+  end.
+
+(* the same machine with the variant read loop [reader_step_sw] *)
+Definition exec_sw (o : op) (g : cfg) : cfg :=
+  match o with
+  | StepReader => let '(r', c') := reader_step_sw (rd g) (cn g) in mkCfg c' (hs g) r' (us g)
+  | _ => exec o g
+  end.
+Fixpoint run_sw (ops : list op) (g : cfg) : cfg :=
+  match ops with
+  | [] => g
+  | o :: ops' => run_sw ops' (exec_sw o g)
+  end.
+
+(* number of atomic effects the read-loop goroutine performs in a history *)
+Fixpoint reader_steps (ops : list op) : nat :=
+  match ops with
+  | [] => 0
+  | StepReader :: t => S (reader_steps t)
+  | _ :: t => reader_steps t
+  end.
+
+(* the read loop holds a received close_notify / fatal alert and is [k] of its own steps away from
+   the closeLock region of close(false) that signals conn.closed *)
+Definition togo (r : rpc) : option nat :=
+  match r with
+  | RReplyF => Some 3
+  | RClassify RCn | RClassify RFatal => Some 2
+  | RClose CLock => Some 1
+  | _ => None
   end.
 
 (* ------------------------------------------------------------------ blocked calls *)
@@ -475,7 +532,7 @@ Definition rank_u (u : upc) : nat :=
 Definition rank_r (r : rpc) : nat :=
   match r with
   | RNone => 20 | RReply => 19 | RClassify ROther => 18 | RRead => 17 | RClassify _ => 16
-  | RClose p => 8 + rank_c p | RExit => 2 | RDone => 0 | RHand _ => 18
+  | RClose p => 8 + rank_c p | RExit => 2 | RDone => 0 | RHand _ => 18 | RReplyF => 19
   end.
 Definition rank_h (h : hpc) : nat :=
   match h with HIdle => 5 | HBegun => 4 | HNeg => 3 | HSelect => 2 | HWait _ => 1 | HRet _ => 0 end.
